@@ -2159,6 +2159,47 @@ def enumerate_index_only(trees, inv):
                             ast.Call(func=ast.Name(id="len", ctx=ast.Load()), args=[it.args[0]], keywords=[])], keywords=[]), it)
                         return ast.copy_location(ast.Name(id=target.elts[0].id, ctx=ast.Store()), target), new_it
                 return None
+            # `for i, x in enumerate(S)` / `enumerate(S[a:], start=a)` where the inventory's version walks indices: `for i in range(a, len(S))`
+            # with S[i] for x (S a path the body neither re-binds nor changes in place, x not re-bound, neither read after the loop)
+            if "N:range" in toks:
+                for x in ast.walk(fn):
+                    if not (isinstance(x, ast.For) and isinstance(x.target, ast.Tuple) and len(x.target.elts) == 2 and all(isinstance(e, ast.Name) for e in x.target.elts)
+                            and isinstance(x.iter, ast.Call) and isinstance(x.iter.func, ast.Name) and x.iter.func.id == "enumerate" and len(x.iter.args) == 1):
+                        continue
+                    seq, start = x.iter.args[0], 0
+                    kws = {k.arg: k.value for k in x.iter.keywords}
+                    if set(kws) - {"start"}:
+                        continue
+                    if "start" in kws:
+                        if not (isinstance(kws["start"], ast.Constant) and type(kws["start"].value) is int):
+                            continue
+                        start = kws["start"].value
+                    lo = 0
+                    if isinstance(seq, ast.Subscript) and isinstance(seq.slice, ast.Slice) and seq.slice.upper is None and seq.slice.step is None \
+                            and isinstance(seq.slice.lower, ast.Constant) and type(seq.slice.lower.value) is int and seq.slice.lower.value >= 0:
+                        lo, seq = seq.slice.lower.value, seq.value
+                    if lo != start or not _pure_path(seq) or isinstance(seq, ast.Constant):
+                        continue
+                    iv, ev = x.target.elts[0].id, x.target.elts[1].id
+                    roots = {y.id for y in ast.walk(seq) if isinstance(y, ast.Name)}
+                    inside = {id(y) for y in ast.walk(x)}
+                    if any(isinstance(y, ast.Name) and y.id in ({iv, ev} | roots) and isinstance(y.ctx, (ast.Store, ast.Del)) for b in x.body for y in ast.walk(b)):
+                        continue
+                    if any(isinstance(y, ast.Name) and y.id in (iv, ev) and id(y) not in inside for y in ast.walk(fn)):
+                        continue
+                    if _touches(x.body, roots - {"self"}, False) or not any(isinstance(y, ast.Name) and y.id == ev and isinstance(y.ctx, ast.Load) for b in x.body for y in ast.walk(b)):
+                        continue
+
+                    class SubEl(ast.NodeTransformer):
+                        def visit_Name(self, n_):
+                            if n_.id == ev and isinstance(n_.ctx, ast.Load):
+                                return ast.copy_location(ast.Subscript(value=_clone(seq), slice=ast.Name(id=iv, ctx=ast.Load()), ctx=ast.Load()), n_)
+                            return n_
+                    x.body = [SubEl().visit(b) for b in x.body]
+                    x.target = ast.copy_location(ast.Name(id=iv, ctx=ast.Store()), x.target)
+                    rargs = ([ast.Constant(value=start)] if start else []) + [ast.Call(func=ast.Name(id="len", ctx=ast.Load()), args=[_clone(seq)], keywords=[])]
+                    x.iter = ast.copy_location(ast.Call(func=ast.Name(id="range", ctx=ast.Load()), args=rargs, keywords=[]), x.iter)
+                    n += 1
             for x in ast.walk(fn):
                 if isinstance(x, ast.For):
                     after = [y for y in ast.walk(fn) if isinstance(y, ast.Name)]
@@ -2280,6 +2321,67 @@ def drop_guards_of_the_lookup_that_follows(trees, inv):
                         i += 1
             if n:
                 notes.append("KeyError guard of the lookup that follows it dropped in %s" % fn.name)
+    return notes
+
+
+def cycles_to_indices(trees, inv):
+    """`c = itertools.cycle(L)` ... `x = next(c)`: a new local that is only ever advanced with next() as a whole statement's value is the
+    round-robin index it hides: `c_i = 0` where c was made, `x = L[c_i]; c_i = (c_i + 1) % len(L)` where it is advanced.  L must be a
+    local list the function neither re-binds nor changes in place after c was made (cycle() would have kept its own copy)."""
+    notes = []
+    for mod, t in trees.items():
+        for scope, owner, fn in list(scopes(t)):
+            q = (scope + "." if scope else "") + fn.name
+            new = genuinely_new_locals(fn, mod, q, inv)
+            if not new:
+                continue
+            for nm in sorted(new):
+                asg = [x for x in ast.walk(fn) if isinstance(x, ast.Assign) and len(x.targets) == 1 and isinstance(x.targets[0], ast.Name) and x.targets[0].id == nm]
+                refs = [y for y in ast.walk(fn) if isinstance(y, ast.Name) and y.id == nm]
+                if len(asg) != 1:
+                    continue
+                v = asg[0].value
+                if not (isinstance(v, ast.Call) and ((isinstance(v.func, ast.Attribute) and v.func.attr == "cycle" and isinstance(v.func.value, ast.Name) and v.func.value.id == "itertools")
+                                                     or (isinstance(v.func, ast.Name) and v.func.id == "cycle")) and len(v.args) == 1 and not v.keywords and isinstance(v.args[0], ast.Name)):
+                    continue
+                L = v.args[0].id
+                nexts = [x for x in ast.walk(fn) if isinstance(x, ast.Assign) and len(x.targets) == 1 and isinstance(x.targets[0], ast.Name) and isinstance(x.value, ast.Call)
+                         and isinstance(x.value.func, ast.Name) and x.value.func.id == "next" and len(x.value.args) == 1 and isinstance(x.value.args[0], ast.Name) and x.value.args[0].id == nm]
+                if not nexts or len(refs) != 1 + len(nexts):
+                    continue
+                # L: not re-bound / mutated from the cycle's creation on
+                later = [y for y in ast.walk(fn) if getattr(y, "lineno", 0) >= asg[0].lineno]
+                if any(isinstance(y, ast.Name) and y.id == L and isinstance(y.ctx, (ast.Store, ast.Del)) for y in later):
+                    continue
+                if any(isinstance(y, ast.Call) and isinstance(y.func, ast.Attribute) and isinstance(y.func.value, ast.Name) and y.func.value.id == L and y.func.attr in MUTATORS for y in later):
+                    continue
+                if any(isinstance(y, ast.Subscript) and isinstance(y.value, ast.Name) and y.value.id == L and isinstance(y.ctx, (ast.Store, ast.Del)) for y in later):
+                    continue
+                idx = nm + "_i"
+                if idx in _bound_names(fn):
+                    continue
+                asg[0].value = ast.copy_location(ast.Constant(value=0), v)
+                asg[0].targets[0].id = idx
+                for blk_owner in list(ast.walk(fn)):
+                    for fld in ("body", "orelse", "finalbody"):
+                        blk = getattr(blk_owner, fld, None)
+                        if not (isinstance(blk, list) and blk and isinstance(blk[0], ast.stmt)):
+                            continue
+                        i = 0
+                        while i < len(blk):
+                            st = blk[i]
+                            if any(st is x for x in nexts):
+                                st.value = ast.copy_location(ast.Subscript(value=ast.Name(id=L, ctx=ast.Load()), slice=ast.Name(id=idx, ctx=ast.Load()), ctx=ast.Load()), st.value)
+                                adv = ast.parse("%s = (%s + 1) %% len(%s)" % (idx, idx, L)).body[0]
+                                for y in ast.walk(adv):
+                                    if hasattr(y, "lineno") or isinstance(y, (ast.expr, ast.stmt)):
+                                        y.lineno = y.end_lineno = st.lineno
+                                        y.col_offset = y.end_col_offset = 0
+                                blk.insert(i + 1, adv)
+                                i += 1
+                            i += 1
+                ast.fix_missing_locations(fn)
+                notes.append("itertools.cycle read as the round-robin index it is in %s: %s" % (q, nm))
     return notes
 
 
@@ -2405,6 +2507,7 @@ def canonicalise(trees, specialise=True):
     notes += new_context_managers_to_try(trees, inv)
     notes += enumerate_index_only(trees, inv)
     notes += truth_of_filtered_literals(trees, inv)
+    notes += cycles_to_indices(trees, inv)
     notes += drop_guards_of_the_lookup_that_follows(trees, inv)
     notes += fromkeys_to_dictcomps(trees, inv)
     notes += listcomps_to_loops(trees, inv)
@@ -2414,6 +2517,7 @@ def canonicalise(trees, specialise=True):
         notes.append("inlined new helper %s into %s" % (h, c))
     if done:
         notes += fold_none_tests_on_containers(trees)
+        notes += enumerate_index_only(trees, inv)
     notes += split_new_tuple_locals(trees, inv)
     notes += unroll_new_literal_loops(trees, inv)
     notes += inline_new_aliases(trees, inv)
